@@ -313,6 +313,70 @@ for _cls in ("HvsrTraditional", "HvsrAzimuthal"):
         TASKS.append(FunctionTask(_c, module_env=dict(_P_ENV, pd=_PD, display=FuncV(lambda ex, st, a, k, n_: NONE, "display")), registry=_registry(_cls),
                                   label=f"{_QP}summarize_hvsr_statistics[{_cls},{_d}]", clauses=["the summary table lists the object's fn statistics"]))
 
+# ---------------------------------------------------------------------------------------------------------------------
+# plot_pre_and_post_rejection: the one function that writes the object it is given.  matplotlib is opaque; plot_single_panel_hvsr_curves is a recorder that may
+# raise (the first panel's mean-curve peak search can fail when every window counts).  Proved: the first panel is drawn with all windows and all peaks
+# accepted, the second with the object's own masks; on the normal exit *and* when a panel raises, both masks hold exactly their content at entry.
+from pyvc.core import ReturnRec
+KPP = z3.Int("n_curves")
+VW_IN, VP_IN = z3.Const("valid_window_on_entry", z3.ArraySort(I, B)), z3.Const("valid_peak_on_entry", z3.ArraySort(I, B))
+
+
+def _pp_inputs(ex, st):
+    st.env["hvsr"] = sym_obj(ex, st, "HvsrTraditional", {"valid_window_boolean_mask": ex.alloc_arr(st, (KPP,), VW_IN, "bool", "param:hvsr.valid_window_boolean_mask", tag="vw"),
+                                                         "valid_peak_boolean_mask": ex.alloc_arr(st, (KPP,), VP_IN, "bool", "param:hvsr.valid_peak_boolean_mask", tag="vp")},
+                             owner="param:hvsr")
+    st.env["srecords"] = StrV("<recordings>")
+    st.env["distribution_mc"], st.env["distribution_fn"] = z3.Int("distribution_mc"), z3.Int("distribution_fn")
+    st.env["__panels"] = Tup(())
+    st.env["KPP"] = KPP
+    return [KPP >= 0]
+
+
+def _m_panel(ex, st, args, kw, node):
+    """plot_single_panel_hvsr_curves(hvsr, ...): records the masks the object has at the time of the call and the options; may raise ValueError"""
+    h = st.heap[args[0].oid]
+    vw, vp = ex.arr(st, h.fields["valid_window_boolean_mask"]), ex.arr(st, h.fields["valid_peak_boolean_mask"])
+    st.env["__panels"] = Tup(tuple(st.env["__panels"]) + ((vw.data, vw.shape[0], vp.data, vp.shape[0], dict(kw)),))
+    fails = ex.fresh("panel_raises", B)
+    bad = st.fork()
+    bad.pc.append(fails)
+    ex.returns.append(ReturnRec(bad, None, "ValueError", getattr(node, "lineno", 0)))
+    st.pc.append(z3.Not(fails))
+    return NONE
+
+
+def _masks_restored(ex, st, a, k, n_):
+    h = st.heap[st.env["hvsr"].oid]
+    vw, vp = ex.arr(st, h.fields["valid_window_boolean_mask"]), ex.arr(st, h.fields["valid_peak_boolean_mask"])
+    i = z3.Int("i!pp")
+    return z3.And(vw.shape[0] == KPP, vp.shape[0] == KPP,
+                  z3.ForAll([i], z3.Implies(z3.And(i >= 0, i < KPP), z3.And(z3.Select(vw.data, i) == z3.Select(VW_IN, i), z3.Select(vp.data, i) == z3.Select(VP_IN, i)))))
+
+
+def _panels_ok(ex, st, a, k, n_):
+    ps = st.env["__panels"]
+    if len(ps) != 2:
+        return z3.BoolVal(False)
+    i = z3.Int("i!pp")
+    (w1, n1, p1, m1, k1), (w2, n2, p2, m2, k2) = ps
+    first = z3.And(n1 == KPP, m1 == KPP, z3.ForAll([i], z3.Implies(z3.And(i >= 0, i < KPP), z3.And(z3.Select(w1, i), z3.Select(p1, i)))))
+    second = z3.And(n2 == KPP, m2 == KPP, z3.ForAll([i], z3.Implies(z3.And(i >= 0, i < KPP), z3.And(z3.Select(w2, i) == z3.Select(VW_IN, i), z3.Select(p2, i) == z3.Select(VP_IN, i)))))
+    opts = z3.And(*[lit(kk.get("distribution_mc")) == z3.Int("distribution_mc") for kk in (k1, k2)] + [lit(kk.get("distribution_fn")) == z3.Int("distribution_fn") for kk in (k1, k2)])
+    return z3.And(first, second, opts)
+
+
+_PP_ENV = {"HvsrTraditional": ClsV("HvsrTraditional"), "plt": OpaqueV("plt"), "plot_seismic_recordings_3c": FuncV(lambda ex, st, a, k, n_: NONE, "plot_seismic_recordings_3c"),
+           "plot_single_panel_hvsr_curves": FuncV(_m_panel, "plot_single_panel_hvsr_curves"), "np": npm.NP}
+PREPOST = Contract(qual=_QP + "plot_pre_and_post_rejection", params=["srecords", "hvsr", "distribution_mc", "distribution_fn"],
+                   ghost={"masks_as_on_entry": FuncV(_masks_restored, "masks_as_on_entry"), "panels": FuncV(_panels_ok, "panels")}, make_inputs=_pp_inputs,
+                   ensures=["masks_as_on_entry()", "panels()"], ensures_on_raise={"ValueError": ["masks_as_on_entry()"]},
+                   modifies=["param:hvsr"],
+                   notes="first panel: every window and every peak accepted; second panel: the object's own masks; both masks are back to their content at entry on the "
+                         "normal exit and when either panel raises")
+PREPOST.ghost_state = ("__panels",)
+TASKS.append(FunctionTask(PREPOST, module_env=_PP_ENV, clauses=["temporary mask changes are undone on every exit"]))
+
 META = dict(
     level="other",
     explanation="frame obligations: the 14 plotting / summary functions write nothing reachable from the HVSR object, the recordings or their keyword-argument "
